@@ -201,6 +201,20 @@ where R: LLLRing, for<'x> &'x R: LLLRingOps<R> {
         while self.data.step < m { 
             self.iterate();
         }
+
+        // `reduce(i, k)` normalizes the pivot of row `i` only; the row processed last
+        // (and the single row when m = 1) is never such an `i`.
+        for i in 0..m { 
+            self.normalize_pivot(i);
+        }
+    }
+
+    fn normalize_pivot(&mut self, i: Row) { 
+        let Some(j) = self.data.nz_col_in(i) else { return };
+        let u = self.data.target[(i, j)].normalizing_unit();
+        if !u.is_one() { 
+            self.data.mul_row(i, &u);
+        }
     }
 
     fn iterate(&mut self) { 
